@@ -226,6 +226,34 @@ def corpus ():
   add("ipv4_tcp_mp_dss", e4(t4(pay, b'\x1e\x14\x20\x05' + struct.pack("!IIIHH", 7, 8, 9, 18, 0)), 6),
       "ethernet/ipv4/tcp(mp_dss ack+dsn)")
   add("ipv4_tcp_mp_unknown", e4(t4(pay, b'\x1e\x04\xf0\x00'), 6), "ethernet/ipv4/tcp(mptcp unknown subtype)")
+  # MPTCP (RFC 6824) in its other forms: MP_CAPABLE with both keys, the three MP_JOIN forms, DSS in every combination
+  # of data ack (none / 4 / 8 bytes) and mapping (none / 4 / 8 byte DSN), the mapping with its checksum and - as when
+  # checksums were not negotiated (3.3) - without it (option two bytes shorter), DATA_FIN, address management, MP_PRIO,
+  # MP_FAIL, MP_FASTCLOSE; always inside a well-formed option list padded with NOPs.
+  mpo = lambda sub, low, body: bytes([30, 4 + len(body), (sub << 4) | (low >> 8), low & 0xff]) + body
+  def dss (flags, csum=True):
+    body = b''
+    if flags & 1: body += struct.pack("!Q" if flags & 2 else "!I", 0x0102030405060708 if flags & 2 else 0x01020304)
+    if flags & 4:
+      body += struct.pack("!Q" if flags & 8 else "!I", 0x1112131415161718 if flags & 8 else 0x11121314)
+      body += struct.pack("!IH", 1, 4) + (struct.pack("!H", 0xbeef) if csum else b'')
+    return mpo(2, flags, body)
+  nops = lambda o: o + b'\x01' * (-len(o) % 4)
+  mp4 = lambda name, opts, what, fl=0x10, d=pattern(4): add("ipv4_tcp_mp_" + name, e4(t4(d, nops(opts), flags=fl), 6),
+                                                           "ethernet/ipv4/tcp(%s)" % what)
+  mp4("capable_ack", mpo(0, 0x081, pattern(8) + pattern(8, 9)), "mp_capable with both keys")
+  mp4("join_synack", mpo(1, 0x002, pattern(8) + pattern(4, 5)), "mp_join SYN/ACK form", fl=0x12, d=b'')
+  mp4("join_ack", mpo(1, 0x000, pattern(20)), "mp_join ACK form")
+  mp4("dss_ack4_map4fin", dss(0x01) + dss(0x14), "mp_dss ack4; mp_dss DATA_FIN+dsn4+csum")
+  mp4("dss_ack8_map8", dss(0x03) + dss(0x0c), "mp_dss ack8; mp_dss dsn8+csum")
+  mp4("dss_ack4map8_none", dss(0x0d) + dss(0x00), "mp_dss ack4+dsn8+csum; mp_dss without ack or mapping")
+  mp4("dss_ack8map4_ts", b'\x01\x01\x08\x0a' + struct.pack("!II", 100, 99) + dss(0x07), "NOP,NOP,TS,mp_dss ack8+dsn4+csum")
+  mp4("dss_ack8map8", dss(0x0f), "mp_dss ack8+dsn8+csum")
+  for fl, nm in ((0x04, "map4"), (0x0c, "map8"), (0x05, "ack4map4"), (0x0d, "ack4map8"), (0x07, "ack8map4"), (0x0f, "ack8map8")):
+    mp4("dss_%s_nocsum" % nm, dss(fl, csum=False), "mp_dss %s, mapping without checksum" % nm)
+  mp4("addr_prio", mpo(3, 0x407, A2) + mpo(4, 0x007, b'') + b'\x1e\x03\x51',
+      "mp_add_addr(ipv4), mp_remove_addr, mp_prio")
+  mp4("fail_fastclose", mpo(6, 0, pattern(8)) + mpo(7, 0, pattern(8, 2)), "mp_fail, mp_fastclose")
   add("icmp_echo_request", e4(r_icmp(8, 0, struct.pack("!HH", 0x1234, 1) + pay), 1), "ethernet/ipv4/icmp/echo")
   add("icmp_echo_reply_odd", e4(r_icmp(0, 0, struct.pack("!HH", 0x1234, 1) + pattern(7)), 1), "ethernet/ipv4/icmp/echo (odd)")
   orig = r_ipv4(u4(pay), 17)[:28]
